@@ -85,6 +85,17 @@ func genAdd(env *Env, ty string, id int) string {
 			e, cl := illElem(r)
 			env.Count("elem/ill-" + cl)
 			els = append(els, e)
+		case r.Intn(12) == 0:
+			// an element whose declared length disagrees with how its kind reports its length: a
+			// string element declared with a fixed length (user-registered). The bookkeeping of
+			// the three add forms must still agree.
+			sp := genSpec(r, entities.String, 1+r.Intn(40))
+			env.Count("elem/odd-declared-length")
+			if ty == "T" {
+				els = append(els, sp.String()+" "+zeroValue(entities.IEDataType(sp.DT)))
+			} else {
+				els = append(els, sp.String()+" "+wfValue(r, sp))
+			}
 		default:
 			els = append(els, wfElem(r))
 		}
